@@ -281,6 +281,11 @@ pub fn observe_in(cfg: &NameCfg, dir: &Path) -> std::io::Result<DirObs> {
             obs.subdirs.push(name);
             continue;
         }
+        if !ft.is_file() {
+            // a FIFO, a socket, a device: never a log file, whatever it is called (and not to be read)
+            obs.foreign.push(name);
+            continue;
+        }
         match cfg.classify(&name) {
             None => obs.foreign.push(name),
             Some(entry) => {
